@@ -701,7 +701,6 @@ func (dr *dirRepo) gc() error {
 				filepath.Join(dr.path, blobsDir),
 				filepath.Join(dr.path, indexFile),
 				filepath.Join(dr.path, layoutFile),
-				filepath.Join(dr.path),
 			} {
 				err := os.Remove(dir)
 				if err != nil && !errors.Is(err, fs.ErrNotExist) {
@@ -709,6 +708,8 @@ func (dr *dirRepo) gc() error {
 					return err
 				}
 			}
+			// the directory itself may hold nested repositories, the repo is still removed when this fails
+			_ = os.Remove(dr.path)
 			return nil
 		}()
 		if errDir == nil {
